@@ -26,6 +26,8 @@ func RunAll(w *load.World, c *core.Collector) {
 	Route(w, c)
 	Fanout(w, c)
 	Sorted(w, c)
+	Rank(w, c)
+	Merge(w, c)
 	Transfer(w, c)
 	Quota(w, c)
 	Lifecycle(w, c)
